@@ -5,7 +5,7 @@ _SWEEP_RULE = (
     "every one of the 2^32 float bit patterns, enumerated in value order by 16 std::threads in 256 chunks of 2^24 "
     "(both tiers): rcp and rsqrt (x>0) against 1/x and 1/sqrt(x) in double with relative error <= 2^-20 on "
     "2^-126 <= |x| < 2^126 (4 227 858 432 / 2 113 929 216 patterns); rcp_safe finite and not of the opposite sign "
-    "for all 4 278 190 082 finite patterns; sign for all non-NaN; deg2rad vs x*pi/180 in double within two float "
+    "for all 4 278 190 080 finite patterns; sign for all 4 278 190 082 non-NaN; deg2rad vs x*pi/180 in double within two float "
     "roundings; cvt_uint32(x) and cvt_uint32(linear_to_srgb(x)) <= 255, 0 for x <= 0, 255 for x >= 1 and "
     "non-decreasing from each float to the next (NaN excluded); plus every 32-bit seed x {[0,1],[-1,1]} (thorough: 6 "
     "ranges) for the first draw of pcg32_biased_float_distribution (inside the range to one rounding step, "
@@ -20,6 +20,37 @@ _SWEEP_ASSUME = [
     "rcp_safe: 'not of the opposite sign' is a numeric comparison, so a zero result or a zero argument never violates it",
 ]
 
+_GRID_RULE = (
+    "ASan+UBSan build. clamp<T>: every (x, lower<=upper) triple over the type's boundary alphabet (48 floats, 61 doubles, "
+    "~50-90 integers incl. min/max; T = float, double, int, unsigned, long, unsigned char) and clamp(x) with the default "
+    "bounds; divRoundUp<T>: every (a,b) with a,b <= 300 (thorough 1024) plus every pair of the boundary alphabet, filtered "
+    "to a >= 0, b > 0, a+b-1 representable (T = int, unsigned, long, size_t, short, unsigned short; unsigned char and signed "
+    "char completely), oracle = least q with q*b >= a in __int128; lerp<float>, madd: all 49^3 triples over 48 floats + NaN, "
+    "lerp<double>, lerp<vec3f>, deg2rad<double> likewise, reference in long double with a rounding-count tolerance; "
+    "cvt_uint32(vec4f) / linear_to_srgba / linear_to_srgba8: all 24^4 (thorough 48^4) vec4f, every output channel equals the "
+    "scalar kernel of the same input channel and is unchanged when the other channels change, monotone and saturating over the "
+    "sorted alphabet; pcg32_biased_float_distribution: 6 seeds x 4 sequences x 12 ranges x first 4096 draws (in range to one "
+    "rounding step, second construction identical, unaffected by interleaved use of another object); "
+    "uniform_real_distribution<float|double>: 4 seeds x {pcg32, mt19937, minstd_rand, mt19937_64} x 12/17 ranges x 4096 draws, "
+    "and a stub generator returning min, max, mid and every 2^k-1/2^k/2^k+1 offset for 11 generator spans. "
+    "distinct = distinct observed results")
+
+_GRID_ASSUME = [
+    "'one rounding step' for a range [lower,upper] = the float (double) spacing at max(|lower|,|upper|,|upper-lower|)",
+    "lerp/madd/deg2rad 'match their definitions' = within the accumulated rounding error of the operations in the definition "
+    "(one ulp per operation), reference evaluated in 80-bit long double; tuples where a finite intermediate can overflow are "
+    "not judged",
+    "ranges whose width upper-lower is not representable (e.g. [-FLT_MAX,FLT_MAX]) and divRoundUp arguments whose a+b-1 "
+    "is not representable are outside the declared domain",
+    "NaN is excluded from the packing functions (cvt_uint32(NaN) converts NaN to an integer)",
+]
+
+# UBSan in recover mode: a report is attributed to the case being judged through __ubsan_on_report (see the harness),
+# so one undefined operation does not end the enumeration.  ASan errors still abort.
+_GRID_FLAGS = ["-fsanitize=address,undefined", "-fsanitize-recover=undefined", "-fno-omit-frame-pointer", "-ffp-contract=off"]
+_GRID_ENV = dict(ASAN_ENV)
+_GRID_ENV["UBSAN_OPTIONS"] = "print_stacktrace=0:halt_on_error=0"
+
 UNITS_LOCAL = {"C07": [
     Unit("sweep_simd", ["harness/C07_sweep.cpp"],
          flags=["-ffp-contract=off"], opt="-O2", engine="gridmc",
@@ -27,6 +58,13 @@ UNITS_LOCAL = {"C07": [
          rule="default (SSE) build: " + _SWEEP_RULE, assumptions=_SWEEP_ASSUME),
     Unit("sweep_nosimd", ["harness/C07_sweep.cpp"],
          flags=["-ffp-contract=off"], defs=["RKCOMMON_NO_SIMD"], opt="-O2", engine="gridmc",
+         # the seed / colour-index sweeps do not depend on RKCOMMON_NO_SIMD: quick runs them in the default build only
+         args={"quick": ["--parts", "1"], "thorough": [], "replay": []},
          budget={"quick": 100, "thorough": 600},
-         rule="-DRKCOMMON_NO_SIMD build: " + _SWEEP_RULE, assumptions=_SWEEP_ASSUME),
+         rule="-DRKCOMMON_NO_SIMD build (quick: the float sweep only; thorough: also the seed and index sweeps): " + _SWEEP_RULE,
+         assumptions=_SWEEP_ASSUME),
+    Unit("grid", ["harness/C07_grid.cpp"],
+         flags=_GRID_FLAGS, env=_GRID_ENV, opt="-O1", engine="gridmc",
+         budget={"quick": 100, "thorough": 600},
+         rule=_GRID_RULE, assumptions=_GRID_ASSUME),
 ]}
